@@ -172,6 +172,51 @@ def tree_eval(prog):
         quiet = x[1]
         if not (isinstance(quiet, Obj) and g(quiet, "total_errors") == 0):
             out["absent-index"] = "looking up an index that is in the instance but has no errors does not give an empty tree"
+        # a node whose *last* error is a propertyNames error records a member name (a string) as its instance; its children are
+        # still found, whatever subscripting that string would do
+        tree2 = T([e1, e2, e4, e0])
+        try:
+            kids = (tree2["x"], tree2["y"], tree2["x"][0])
+            if not all(isinstance(k, Obj) for k in kids) or dict(g(kids[2], "errors")) != {"minimum": e2}:
+                out["absent-index"] = "children of a node whose recorded instance is a member name are not the filed ones"
+        except PyRaise as pr:
+            out["absent-index"] = "looking up a child that has errors raises %s when the node's recorded instance is a string (a propertyNames error was filed last)" % pr.name
+        # arrival order is the validator's business: siblings first, then a deeper error under the first sibling (two allOf branches
+        # over one object), shallow after deep, a shared prefix after an unrelated path
+        out["order"] = None
+        f1 = VE("p", validator="type", path=["a"], instance=1)
+        f2 = VE("q", validator="type", path=["b"], instance=2)
+        f3 = VE("r", validator="minimum", path=["a", "b"], instance=3)
+        f4 = VE("s", validator="maximum", path=["a", "b", "c"], instance=4)
+        f5 = VE("t", validator="type", path=["a", "c"], instance=5)
+        f6 = VE("u", validator="enum", path=[], instance=6)
+        want_nodes = {(): {"enum": f6}, ("a",): {"type": f1}, ("b",): {"type": f2}, ("a", "b"): {"minimum": f3}, ("a", "b", "c"): {"maximum": f4}, ("a", "c"): {"type": f5}}
+        import itertools as _it
+        orders = [[f1, f2, f3, f4, f5, f6], [f4, f3, f1, f2, f6, f5], [f2, f4, f1, f5, f3, f6], [f6, f5, f4, f3, f2, f1], [f1, f3, f2, f4, f5, f6], [f3, f2, f4, f1, f6, f5]]
+        for order in orders:
+            t3 = T(list(order))
+            for pth, werrs in want_nodes.items():
+                node = t3
+                try:
+                    for el in pth:
+                        node = node[el]
+                    got_errs = dict(g(node, "errors"))
+                except PyRaise as pr:
+                    got_errs = "<%s>" % pr.name
+                if got_errs != werrs:
+                    out["order"] = "errors arriving as %s: the node at %r holds %r, expected %r" % ([list(g(e, "path")) for e in order], list(pth), got_errs, werrs)
+                    break
+            if out["order"] is None and (g(t3, "total_errors") != 6 or sorted(iter(t3)) != ["a", "b"] or sorted(iter(t3["a"])) != ["b", "c"]):
+                out["order"] = "errors arriving as %s: %d errors in the tree / children %r, expected 6 / ['a', 'b']" % (
+                    [list(g(e, "path")) for e in order], g(t3, "total_errors"), sorted(iter(t3)))
+            if out["order"] is not None:
+                break
+        # building a tree reads the errors; it does not change them (their paths are looked at again afterwards)
+        out["errors-untouched"] = None
+        for e, pth in ((e0, []), (e2, ["x", 0]), (e5, ["x"]), (e7, ["a", "b"]), (f4, ["a", "b", "c"]), (f6, [])):
+            if list(g(e, "path")) != pth or list(g(e, "relative_path")) != pth or list(g(e, "absolute_path")) != pth:
+                out["errors-untouched"] = "after trees were built from it, an error filed at %r has path %r" % (pth, list(g(e, "path")))
+                break
         for node, idx, exc in ((tree, "z", "KeyError"), (x, 5, "IndexError")):
             try:
                 node[idx]
